@@ -34,31 +34,34 @@ VEC = ["vshr", "vshl", "vror", "vrol"]
 # --------------------------------------------------------------------------- implementation side
 def _entries(n: int, ew: int, style: str, prefix: str):
     """n entries of width ew: plain signals or views of a two-field struct; returns (objects, input signals)"""
-    from amaranth import Signal
+    from amaranth import Signal, signed
     from amaranth.lib import data
 
     objs, sigs = [], []
     for j in range(n):
-        if style == "view" and ew >= 2:
-            v = Signal(data.StructLayout({"p": ew // 2, "q": ew - ew // 2}), name=f"{prefix}{j}")
+        if style in ("view", "sview") and ew >= 2:
+            # "sview": both fields of the struct are signed
+            lo, hi = (signed(ew // 2), signed(ew - ew // 2)) if style == "sview" else (ew // 2, ew - ew // 2)
+            v = Signal(data.StructLayout({"p": lo, "q": hi}), name=f"{prefix}{j}")
             objs.append(v)
             sigs.append(v.as_value())
         else:
-            s = Signal(ew, name=f"{prefix}{j}")
+            s = Signal(signed(ew) if style in ("signed", "sview") else ew, name=f"{prefix}{j}")
             objs.append(s)
             sigs.append(s)
     return objs, sigs
 
 
 def build(desc: dict) -> CombDesign:
-    from amaranth import Signal, Cat, Value
+    from amaranth import Signal, Cat, Value, signed
     from transactron.utils.amaranth_ext import shifter as S
 
     g = desc["g"]
     off = Signal(desc["ow"], name="off")
+    sg = desc.get("sg", 0)  # signed operands: the functions work on the bit pattern
     if g == "scalar":
         w = desc["w"]
-        x, ph = Signal(w, name="x"), Signal(1, name="ph")
+        x, ph = Signal(signed(w) if sg else w, name="x"), Signal(1, name="ph")
         outs = {
             "shr": (S.shift_right(x, off, ph), None),
             "ror": (S.rotate_right(x, off), None),
@@ -73,38 +76,46 @@ def build(desc: dict) -> CombDesign:
         return CombDesign([x, off, ph], outs)
     if g == "generic":
         w = desc["w"]
-        a, b = Signal(w, name="a"), Signal(w, name="b")
+        a, b = Signal(signed(w) if sg else w, name="a"), Signal(signed(w) if sg else w, name="b")
         return CombDesign([a, b, off], {"gsr": (S.generic_shift_right(a, b, off), None), "gsl": (S.generic_shift_left(a, b, off), None)})
     n, ew, style = desc["n"], desc["ew"], desc["style"]
 
-    def pack(entries):
-        assert len(entries) == n
+    entry_lens: dict = {}
+
+    def pack(name, entries):
+        entry_lens[name] = [len(Value.cast(e)) for e in entries]
         return Cat(*[Value.cast(e) for e in entries])
 
     d, dsig = _entries(n, ew, style, "d")
     if g == "vec":
         (ph,), phsig = _entries(1, ew, style, "ph")
         outs = {
-            "vshr": (pack(S.shift_vec_right(d, off, ph)), n * ew),
-            "vshl": (pack(S.shift_vec_left(d, off, ph)), n * ew),
-            "vror": (pack(S.rotate_vec_right(d, off)), n * ew),
-            "vrol": (pack(S.rotate_vec_left(d, off)), n * ew),
-            "vshr_default": (pack(S.shift_vec_right(d, off)), n * ew),  # placeholder=None
-            "vshl_default": (pack(S.shift_vec_left(d, off)), n * ew),
+            "vshr": (pack("vshr", S.shift_vec_right(d, off, ph)), None),
+            "vshl": (pack("vshl", S.shift_vec_left(d, off, ph)), None),
+            "vror": (pack("vror", S.rotate_vec_right(d, off)), None),
+            "vrol": (pack("vrol", S.rotate_vec_left(d, off)), None),
+            "vshr_default": (pack("vshr_default", S.shift_vec_right(d, off)), None),  # placeholder=None
+            "vshl_default": (pack("vshl_default", S.shift_vec_left(d, off)), None),
         }
-        return CombDesign(dsig + [off] + phsig, outs)
+        des = CombDesign(dsig + [off] + phsig, outs)
+        des.entry_lens = entry_lens
+        return des
     if g == "gvec":
         e, esig = _entries(n, ew, style, "e")
         outs = {
-            "gvsr": (pack(S.generic_shift_vec_right(d, e, off)), n * ew),
-            "gvsl": (pack(S.generic_shift_vec_left(d, e, off)), n * ew),
+            "gvsr": (pack("gvsr", S.generic_shift_vec_right(d, e, off)), None),
+            "gvsl": (pack("gvsl", S.generic_shift_vec_left(d, e, off)), None),
         }
-        return CombDesign(dsig + esig + [off], outs)
+        des = CombDesign(dsig + esig + [off], outs)
+        des.entry_lens = entry_lens
+        return des
     raise ValueError(g)
 
 
 def vector(desc: dict, f: dict) -> list[int]:
     g = desc["g"]
+    if f["op"] == "len":
+        return [0] * ({"scalar": 3, "generic": 3, "vec": desc.get("n", 0) + 2, "gvec": 2 * desc.get("n", 0) + 1}[g])
     if g == "scalar":
         return [int(f["x"]), int(f["off"]), int(f.get("ph", 0))]
     if g == "generic":
@@ -133,10 +144,14 @@ def impl(case: Case) -> list[str]:
         return ["ok"] + [f"raise {type(e).__name__}"] * len(case.ops)
     out = ["ok"]
     for f, r in zip(fs, res):
+        if f["op"] == "len":  # width(s) of the returned Value(s)
+            out.append("r=" + (show_list(design.entry_lens[f["f"]]) if desc["g"] in ("vec", "gvec") else str(design.lens[f["f"]])))
+            continue
         v = r[_outname(f)]
         if desc["g"] in ("vec", "gvec"):
             ew, n = desc["ew"], desc["n"]
-            out.append("r=" + show_list([(v >> (j * ew)) & ((1 << ew) - 1) for j in range(n)]))
+            # the last entry keeps whatever lies above position n*ew (stray high bits would show up there)
+            out.append("r=" + show_list([(v >> (j * ew)) & ((1 << ew) - 1) if j < n - 1 else v >> (j * ew) for j in range(n)]))
         else:
             out.append(f"r={v}")
     return out
@@ -172,6 +187,8 @@ def _num(bits: list[int]) -> int:
 
 def in_domain(f: dict) -> bool:
     """Region of the theorems: offset <= width (length), or a zero placeholder for the plain shifts."""
+    if f["op"] == "len":
+        return True
     op, off = f["op"], int(f["off"])
     size = int(f["w"]) if "w" in f else len(ints(f["d"]))
     if op in ("shr", "shl", "vshr", "vshl"):
@@ -181,6 +198,8 @@ def in_domain(f: dict) -> bool:
 
 def reference(f: dict):
     """The documented function in plain Python: shift and fill with the placeholder / rotate modulo the size."""
+    if f["op"] == "len":  # "the same width as value" / "the same length as data", entries keep their width
+        return f["w"] if "w" in f else show_list([int(f["ew"])] * int(f["n"]))
     op, off = f["op"], int(f["off"])
     if op in SCALAR:
         w = int(f["w"])
@@ -229,6 +248,8 @@ def nontrivial(case: Case, out: list[str]) -> bool:
     """some line of the case moves data: offset not 0 and the result differs from the input value"""
     for line, o in zip(case.ops, out[1:]):
         f = kv(line)
+        if f["op"] == "len":
+            continue
         src = f.get("x") or f.get("a") or f.get("d")
         if int(f["off"]) != 0 and o != f"r={src}":
             return True
@@ -244,13 +265,13 @@ def _cases(desc: dict, ops: list[str], tag: str) -> list[Case]:
     return [Case(_cfg(desc), ops[i : i + CHUNK], dict(desc), tag) for i in range(0, len(ops), CHUNK)]
 
 
-def scalar_desc(w: int, shl: int = 1) -> dict:
-    return {"g": "scalar", "w": w, "ow": (2 * w + 3).bit_length(), "shl": shl}
+def scalar_desc(w: int, shl: int = 1, sg: int = 0) -> dict:
+    return {"g": "scalar", "w": w, "ow": (2 * w + 3).bit_length(), "shl": shl, "sg": sg}
 
 
 def scalar_ops(w: int, xs, offs_in, offs_far, shl: int = 1) -> list[str]:
     """offs_in: offsets <= w (all four functions, both placeholders); offs_far: offsets > w (placeholder 0 only)"""
-    ops = []
+    ops = [f"op=len f={f} w={w}" for f in (SCALAR if shl else ["shr", "ror", "rol"])]
     for x in xs:
         for off in offs_in:
             ops.append(f"op=ror w={w} x={x} off={off}")
@@ -270,7 +291,7 @@ def scalar_ops(w: int, xs, offs_in, offs_far, shl: int = 1) -> list[str]:
 
 
 def generic_ops(w: int, triples) -> list[str]:
-    return [f"op={op} w={w} a={a} b={b} off={off}" for a, b, off in triples for op in ("gsr", "gsl")]
+    return [f"op=len f=gsr w={w}", f"op=len f=gsl w={w}"] + [f"op={op} w={w} a={a} b={b} off={off}" for a, b, off in triples for op in ("gsr", "gsl")]
 
 
 def vec_desc(n: int, ew: int, style: str, g: str = "vec") -> dict:
@@ -278,7 +299,7 @@ def vec_desc(n: int, ew: int, style: str, g: str = "vec") -> dict:
 
 
 def vec_ops(n: int, ew: int, datas, offs_in, offs_far, phs) -> list[str]:
-    ops = []
+    ops = [f"op=len f={f} ew={ew} n={n}" for f in VEC]
     for d in datas:
         ds = show_list(d)
         for off in offs_in:
@@ -296,7 +317,8 @@ def vec_ops(n: int, ew: int, datas, offs_in, offs_far, phs) -> list[str]:
 
 
 def gvec_ops(ew: int, triples) -> list[str]:
-    return [f"op={op} ew={ew} d={show_list(d)} e={show_list(e)} off={off}" for d, e, off in triples for op in ("gvsr", "gvsl")]
+    n = len(triples[0][0])
+    return [f"op=len f=gvsr ew={ew} n={n}", f"op=len f=gvsl ew={ew} n={n}"] + [f"op={op} ew={ew} d={show_list(d)} e={show_list(e)} off={off}" for d, e, off in triples for op in ("gvsr", "gvsl")]
 
 
 def _rand_vals(w: int, rng, n: int) -> list[int]:
@@ -318,6 +340,12 @@ def gen_cases(ctx: Check) -> list[Case]:
     for w in small:
         d = scalar_desc(w)
         cases += _cases(d, scalar_ops(w, range(1 << w), range(w + 1), range(w + 1, 1 << d["ow"])), "exhaustive")
+        if w <= ctx.pick(5, 8):  # signed operands (the documented result is on the bit pattern)
+            ds = scalar_desc(w, 1, 1)
+            cases += _cases(ds, scalar_ops(w, range(1 << w), range(w + 1), sorted({w + 1, 2 * w, (1 << ds["ow"]) - 1})), "exhaustive")
+            gs = {"g": "generic", "w": w, "ow": d["ow"], "sg": 1}
+            tr = [(a, b, off) for a in range(1 << w) for b in range(1 << w) for off in range(w + 2)] if w <= 3 else [(rng.getrandbits(w), rng.getrandbits(w), off) for off in range(w + 2) for _ in range(30)]
+            cases += _cases(gs, generic_ops(w, tr), "exhaustive" if w <= 3 else "random")
         d = {"g": "generic", "w": w, "ow": d["ow"]}
         if w <= ctx.pick(3, 5):
             triples = [(a, b, off) for a in range(1 << w) for b in range(1 << w) for off in range(1 << d["ow"])]
@@ -325,9 +353,9 @@ def gen_cases(ctx: Check) -> list[Case]:
             triples = [(rng.getrandbits(w), rng.getrandbits(w), off) for off in range(1 << d["ow"]) for _ in range(40)]
         cases += _cases(d, generic_ops(w, triples), "exhaustive" if w <= ctx.pick(3, 5) else "random")
     per = max(2, nrand // (len(wide) * 12))
-    for w in wide:
+    for wi, w in enumerate(wide):
         shl = int(w <= shl_max)
-        d = scalar_desc(w, shl)
+        d = scalar_desc(w, shl, wi % 2)  # every other wide design has signed operands
         ops = []
         for x in _rand_vals(w, rng, per):
             offs_in = sorted({0, 1, w - 1, w, rng.randrange(w + 1), rng.randrange(w + 1)})
@@ -336,7 +364,7 @@ def gen_cases(ctx: Check) -> list[Case]:
         cases += _cases(d, ops, "random")
         if ctx.quick and w in (31, 33, 63):
             continue
-        g = {"g": "generic", "w": w, "ow": d["ow"]}
+        g = {"g": "generic", "w": w, "ow": d["ow"], "sg": 1 - wi % 2}
         triples = [(rng.getrandbits(w), rng.getrandbits(w), rng.choice([0, 1, w - 1, w, rng.randrange(w + 1), rng.randrange(1 << d["ow"])])) for _ in range(per * 6)]
         cases += _cases(g, generic_ops(w, triples), "random")
 
@@ -345,7 +373,9 @@ def gen_cases(ctx: Check) -> list[Case]:
     j = 0
     for ew in range(1, lim + 1):
         for n in range(1, lim // ew + 1):
-            style = "view" if (j % 2 and ew >= 2) else "flat"
+            style = ["flat", "view", "signed", "sview"][j % 4]
+            if ew < 2 and style in ("view", "sview"):
+                style = "signed"
             j += 1
             d = vec_desc(n, ew, style)
             datas = [list(v) for v in itertools.product(range(1 << ew), repeat=n)]
@@ -357,8 +387,8 @@ def gen_cases(ctx: Check) -> list[Case]:
                 triples = [(list(a), list(b), off) for a in itertools.product(range(1 << ew), repeat=n) for b in itertools.product(range(1 << ew), repeat=n) for off in range(1 << g["ow"])]
                 cases += _cases(g, gvec_ops(ew, triples), "exhaustive")
     for n, ew, style in ctx.pick(
-        [(4, 3, "view"), (5, 8, "flat"), (7, 5, "view"), (8, 8, "flat"), (9, 8, "view"), (3, 33, "flat"), (2, 64, "view"), (16, 2, "flat")],
-        [(n, ew, s) for n in (2, 3, 4, 5, 7, 8, 9, 16) for ew, s in ((2, "flat"), (3, "view"), (8, "flat"), (16, "view"), (33, "flat"), (64, "view"))],
+        [(4, 3, "view"), (5, 8, "signed"), (7, 5, "sview"), (8, 8, "flat"), (9, 8, "view"), (3, 33, "signed"), (2, 64, "sview"), (16, 2, "flat")],
+        [(n, ew, s) for n in (2, 3, 4, 5, 7, 8, 9, 16) for ew, s in ((2, "signed"), (3, "view"), (8, "flat"), (16, "sview"), (33, "signed"), (64, "view"))],
     ):
         d = vec_desc(n, ew, style)
         ops = []
@@ -470,6 +500,8 @@ def run(ctx: Check):
             ctx.count("op_" + line.split()[0][3:])
     lockstep(ctx, "shifter", "C37", cases, impl, monitor, more_cases, nontrivial, procs=ctx.pick(4, None))
     outside_region(ctx)
+    ctx.note("signed operands (Signal(signed(w)), signed entries, structs with signed fields) are included; every result is "
+             "observed at the width of the returned Value plus 4 bits and len(result) is compared with the operand width")
     ctx.note("exhaustive part: every value x offset (x placeholder) at widths 1..%d and vectors with n*ew <= %d" % (ctx.pick(6, 8), ctx.pick(6, 8)))
 
 
